@@ -30,6 +30,7 @@ def xptCmd (args : List String) : String :=
       | .panic => "PANIC"
     "OVER " ++ show1 65 ++ " " ++ show1 100 ++ " " ++ show1 10
   | ["rawaddr", m] => if m = "b" ∨ m = "nb" then "RAWADDR data_ok=1 addr_ok=1 reply_ok=1" else "BADARG"
+  | ["rebind", m] => if m = "b" ∨ m = "nb" then "REBIND data_ok=1 addr_ok=1 reply_ok=1" else "BADARG"
   | ["dead", k] => if k = "chan" ∨ k = "unix" then "DEAD live=OK after=ERR" else "BADARG"
   -- a burst at a receiver that drains later: received = exactly the sends that answered Ok (`C19.fifo_from_start` / `drained_all_once` with sent = the accepted sends)
   | ["late", m] => if m = "nb" ∨ m = "nbs" then "LATE match=1" else "BADARG"
@@ -63,6 +64,7 @@ def orcC19 (args : List String) : String :=
   match args with
   | "over" :: "@@" :: obs => if obs.any (· = "PANIC") || obs.length ≠ 4 then "FAIL oversize-panic" else "PASS"
   | "rawaddr" :: "@@" :: obs => if obs = ["RAWADDR", "data_ok=1", "addr_ok=1", "reply_ok=1"] then "PASS" else "FAIL sender-address"
+  | "rebind" :: "@@" :: obs => if obs = ["REBIND", "data_ok=1", "addr_ok=1", "reply_ok=1"] then "PASS" else "FAIL sender-address-after-rebind"
   | "late" :: "@@" :: obs => if obs = ["LATE", "match=1"] then "PASS" else "FAIL acked-datagram-lost-or-unacked-delivered"
   | "dead" :: "@@" :: obs => if obs = ["DEAD", "live=OK", "after=ERR"] then "PASS" else "FAIL dead-handle"
   | n :: count :: seed :: cap :: mode :: "@@" :: obs =>
